@@ -289,13 +289,13 @@ pub fn c19(seed: u64, budget: u64) -> FOut {
                     }
                 }
                 let relay_target: Option<VId> = match input {
-                    Input::Data(b) => match split_datagram(b) {
-                        Some((h, _, _)) => match h.message {
+                    Input::Data(b) => match dec_header(&mut &b[..]) {
+                        Ok(h) => match h.message {
                             foca::Message::PingReq { target, .. } => Some(target),
                             foca::Message::IndirectAck { target, .. } => Some(target),
                             _ => None,
                         },
-                        None => None,
+                        Err(_) => None,
                     },
                     Input::Announce(d) => Some(*d),
                     // a (forged) suspicion timer names its member: the courtesy TurnUndead goes there
@@ -336,10 +336,105 @@ pub fn c19(seed: u64, budget: u64) -> FOut {
     out
 }
 
+/// C06: no panic on any input, schedule or configuration
+pub fn c06(seed: u64, budget: u64) -> FOut {
+    let mut out = FOut::default();
+    out.rule = "seeded single-instance histories (400 calls) with a heavy malformed stream (random bytes, truncations, bit flips of valid datagrams), forged/stale/duplicated timers, every API call incl. set_config between sends and packet sizes 18..70000, incarnations at MAX, run under catch_unwind on the debug-assertion build; plus Config::new_lan/new_wan on boundaries, powers of ten +-1 and random u32 values. distinct = distinct (input kind, outcome) pairs plus constructor arguments".into();
+    let mut kinds: HashSet<String> = HashSet::new();
+    for h in 0..budget {
+        let hs = seed.wrapping_mul(104729).wrapping_add(h);
+        let mut g2 = G::new(hs ^ 0xABCD);
+        let mut last: Option<(String, String)> = None;
+        let mut steps = 0u64;
+        // a second, hostile stream interleaved with the structured one
+        let mut g = G::new(hs);
+        let cfg = gen_cfg(&mut g);
+        let id = VId { a: 9, g: 1 + g.below(2) as u16, k: g.below(4) as u8, pad: 0 };
+        let mut inst = Inst::new(id, &cfg, g.next(), g.below(4) as u8, g.below(256) as u8);
+        let mut pending: Vec<(u128, MTimer)> = vec![];
+        for _ in 0..400 {
+            let pre = inst.snapshot();
+            let input = if g2.chance(25) {
+                match g2.below(4) {
+                    0 => Input::Data((0..g2.below(2 * pre.cfg.max_packet_size.min(200) as u64 + 2)).map(|_| g2.below(256) as u8).collect()),
+                    1 => {
+                        let d = gen_datagram(&mut g2, &pre);
+                        let d = mutate(&mut g2, d);
+                        Input::Data(mutate(&mut g2, d))
+                    }
+                    2 => Input::Timer(forged_timer(&mut g2, &pre)),
+                    _ => Input::ApplyMany(
+                        (0..g2.below(4)).map(|_| MMember { id: pre.identity, inc: *g2.pick(&[0u16, 65534, 65535]), state: 1 }).collect(),
+                        true,
+                    ),
+                }
+            } else {
+                gen_input(&mut g, &pre, &mut pending, &cfg)
+            };
+            let (effs, o) = run_real(&mut inst.foca, &input);
+            steps += 1;
+            for e in &effs {
+                if let Eff::Submit(t, after) = e {
+                    pending.push((*after, t.clone()));
+                }
+            }
+            kinds.insert(format!("{}:{:?}", input.kind(), o));
+            if let Outcome::Panicked(_) = o {
+                last = Some((input.kind().to_string(), format!("{input:?}")));
+                out.hit(
+                    &format!("C06:panic:{}", input.kind()),
+                    J::obj(vec![("history_seed", J::n(hs)), ("step", J::n(steps)), ("input", J::s(format!("{input:?}"))), ("pre_state", J::s(format!("{pre:?}")))]),
+                );
+                break;
+            }
+        }
+        let _ = last;
+        out.runs += 1;
+        if h < 1 {
+            out.samples.push(J::s(format!("history seed {hs}: {steps} calls, no panic")));
+        }
+    }
+    // configuration constructors
+    let mut args: Vec<u32> = vec![1, 2, 3, 9, 10, 11, 99, 100, 101, 999, 1000, 1001, u32::MAX, u32::MAX - 1, 1 << 31];
+    let mut p = 1u64;
+    while p < u32::MAX as u64 {
+        for d in [-1i64, 0, 1] {
+            let v = p as i64 + d;
+            if v >= 1 && v <= u32::MAX as i64 {
+                args.push(v as u32);
+            }
+        }
+        p *= 10;
+    }
+    let mut g = G::new(seed ^ 0xC06);
+    for _ in 0..(budget * 50) {
+        args.push(1 + g.below(u32::MAX as u64) as u32);
+    }
+    let mut ctor_runs = 0u64;
+    for a in args {
+        let n = std::num::NonZeroU32::new(a).unwrap();
+        let r = std::panic::catch_unwind(|| {
+            let c1 = foca::Config::new_lan(n);
+            let c2 = foca::Config::new_wan(n);
+            (c1.max_transmissions.get(), c2.suspect_to_down_after)
+        });
+        ctor_runs += 1;
+        if r.is_err() {
+            out.hit("C06:panic:config-constructor", J::n(a));
+        }
+    }
+    for k in kinds {
+        out.distinct.insert(hash_of(&k));
+    }
+    out.extra.push(("config_constructor_calls".into(), J::n(ctor_runs)));
+    out
+}
+
 pub fn run(prop: &str, seed: u64, budget: u64) -> Option<FOut> {
     match prop {
         "C01" => Some(c01(seed, budget)),
         "C19" => Some(c19(seed, budget)),
+        "C06" => Some(c06(seed, budget)),
         _ => None,
     }
 }
